@@ -191,19 +191,19 @@ def InexactOnlyWhenNeeded (op : Num → Num → Num) (spec : Rat → Rat → Rat
 theorem not_T08_2_add : ¬ InexactOnlyWhenNeeded add (· + ·) := by
   intro h
   have := h (.rat 1 2) (.rat 2147483647 2) (by decide) (by decide) rfl rfl (by decide) _ _ rfl rfl
-  revert this; decide
+  revert this; decide +kernel
 
 /-- `(* 4294967296 1/2)` answers `2147483648.0`. -/
 theorem not_T08_2_mul : ¬ InexactOnlyWhenNeeded mul (· * ·) := by
   intro h
   have := h (.fix 4294967296) (.rat 1 2) (by decide) (by decide) rfl rfl (by decide) _ _ rfl rfl
-  revert this; decide
+  revert this; decide +kernel
 
 /-- `(- 3000000000 1/1)` (an integer-valued rational) answers `2999999999.0`. -/
 theorem not_T08_2_sub : ¬ InexactOnlyWhenNeeded sub (· - ·) := by
   intro h
   have := h (.fix 3000000000) (.rat 1 1) (by decide) (by decide) rfl rfl (by decide) _ _ rfl rfl
-  revert this; decide
+  revert this; decide +kernel
 
 /-- `(/ 5000000000 5)` answers `1000000000.0`: the full statement for division is false. -/
 theorem not_T08_2_div :
@@ -211,15 +211,15 @@ theorem not_T08_2_div :
         ∀ x y, val a = some x → val b = some y → representable (x / y) = false) := by
   intro h
   have := h (.fix 5000000000) (.fix 5) (by decide) (by decide) _ rfl (by decide) _ _ rfl rfl
-  revert this; decide
+  revert this; decide +kernel
 
 /-- T08.2_partial (+ − ×): between integer representations (`fix`, `big`) the answer is always
     exact, whatever the magnitudes — the bignum fall-back is complete. -/
 theorem T08_2_partial_integers (a b : Num) (ha : intVal? a ≠ none) (hb : intVal? b ≠ none)
     (hra : isRatRep a = false) (hrb : isRatRep b = false) :
     isExact (add a b) = true ∧ isExact (sub a b) = true ∧ isExact (mul a b) = true := by
-  cases a <;> cases b <;> simp_all [intVal?, isRatRep, add, sub, mul, isExact] <;>
-    (refine ⟨?_, ?_, ?_⟩ <;> split <;> rfl)
+  cases a <;> cases b <;> simp_all [intVal?, isRatRep]
+  all_goals (refine ⟨?_, ?_, ?_⟩ <;> simp only [add, sub, mul] <;> (try split) <;> rfl)
 
 /-- T08.2_partial (÷): when both operands are integers within the i32 range (in `fix` or `big`
     representation) an inexact quotient is given only when the exact quotient is not
@@ -256,7 +256,7 @@ theorem not_T08_4 :
         isExact (add a b) = isExact (add a' b)) := by
   intro h
   have := h (.fix 5) (.big 5) (.rat 1 2) (by decide) (by decide) (by decide) rfl
-  revert this; decide
+  revert this; decide +kernel
 
 /-- T08.4_partial: whenever both answers are exact they have the same value (a corollary of
     T08.1) — only the *exactness* depends on the representation, never the value of an exact answer. -/
